@@ -95,6 +95,14 @@ func (d *Ar) Next() (*ArEntry, error) {
 		return nil, fmt.Errorf("Malformed file entry: negative size")
 	}
 
+	if entry.Size > 0 {
+		/* make sure the member is all there before handing it out */
+		last := make([]byte, 1)
+		if _, err := d.in.ReadAt(last, d.offset+int64(count)+entry.Size-1); err != nil {
+			return nil, io.ErrUnexpectedEOF
+		}
+	}
+
 	entry.Data = io.NewSectionReader(d.in, d.offset+int64(count), entry.Size)
 	d.offset += int64(count) + entry.Size + (entry.Size % 2)
 
